@@ -750,6 +750,9 @@ class MultiStream(Stream):
         """
         if self.chemicals is not other.chemicals and self.chemicals.IDs != other.chemicals.IDs:
             raise ValueError('other stream must have the same chemicals defined to copy flow')
+        if other.imol.data.ndim == 2 and self.phases != other.phases:
+            # Phase rows are copied by position
+            raise ValueError('other multi-phase stream must have the same phases defined to copy flow')
         IDs_index = self.chemicals.get_index(IDs)
         phase_index = self.imol.get_phase_index(phase)
         data = self.imol.data
